@@ -94,6 +94,11 @@ var c19UserFiles = map[string]string{
 	".goag.yaml":  "cors:\n  enable: true\n",
 	".goag.local": "scratch notes\n",
 	".gitignore":  "*.tmp\n",
+	// names close to goag's own (and to what earlier generators called their output)
+	"schemas.go": "package gen\n\ntype Money struct{ Cents int64 }\n",
+	"spec.go":    "package gen\n\nconst userSpecNote = \"mine\"\n",
+	"models.go":  "package gen\n\ntype userModel struct{}\n",
+	"client_user.go": "package gen\n",
 }
 
 func C19(r *core.Run) int {
